@@ -8,35 +8,58 @@ from .common import bump
 ID = "C12"
 AREA = "c12"
 LEAN_PROPS = "Litep2pVerif.Props.C12"
-THEOREMS = ["per_mode_prefix", "at_most_once", "no_gap_within_open_period", "sync_never_blocks",
+THEOREMS = ["per_mode_prefix", "at_most_once", "no_gap_within_open_period", "no_loss_while_open", "sync_never_blocks",
             "oversize_not_delivered"]
+CONSTS = ["BACKPRESSURE_BOUNDARY"]
+CONST_TABLE = [
+    ("BACKPRESSURE_BOUNDARY", "src/substream/mod.rs", r"const BACKPRESSURE_BOUNDARY: usize = ([^;]+);", 65536),
+]
 MANIFEST = {
     "text": "Lean 4 theorems about an executable model of the notification data path (bounded sync/async queues, the "
-            "Connection task's poll loop with the slot on the shared inbound channel reserved before reading, FIFO "
-            "pipes, the handle's peers filter, clogged => one ForceClose): for every schedule (any choice between the "
-            "two queues, any reader stall pattern) the frames read by the remote are, per sending mode, a prefix of the "
-            "accepted notifications in order (hence at most once and without gaps); the synchronous send is one "
-            "non-blocking step with result ok/clogged/no-connection; an inbound frame above the maximum is never "
-            "delivered. Tie: bursts beyond both channel capacities, reader stalls (bounded pipe, partial reads), both modes "
-            "interleaved (checker mode for the select! choice), close/reopen cycles on the real Connection task and on "
-            "the model; sequence-number oracle.",
+            "Connection task's poll loop: take the parked notification or either non-empty queue, poll_ready with the "
+            "substream's back-pressure boundary, park at most one notification, start_send, flush; the start() loop that "
+            "re-enters poll_next after every inbound notification; the slot on the shared inbound channel reserved before "
+            "reading; FIFO pipes; the handle's peers filter; clogged => one ForceClose): for every schedule (any choice of "
+            "select! between the two queues, any reader stall pattern, any pipe size) the frames read by the remote are, per "
+            "sending mode, a prefix of the accepted notifications in order (hence at most once and without gaps); while the "
+            "task lives the accepted notifications are exactly read ++ in the substream ++ parked ++ queued, so nothing is "
+            "lost and a drained open stream has delivered everything; the synchronous send is one non-blocking step with "
+            "result ok/clogged/no-connection; a poll of the task never moves an inbound frame above the maximum into the "
+            "user's channel. Tie: bursts beyond both channel capacities, reader stalls (bounded pipe, partial reads), both "
+            "modes queued at once while the substream is beyond its 64 KiB boundary and the pipe is full, notifications of "
+            "16383/16384/16385 bytes, drains to quiescence with the stream open, close/reopen cycles on the real Connection "
+            "task and on the model (checker mode: the model follows every select! choice consistent with the observations); "
+            "sequence-number oracle incl. delivered = accepted at quiescence.",
     "note": "Trusted: Lean kernel; axioms propext/Classical.choice/Quot.sound; the hand-written model and its sampled tie; "
-            "tokio mpsc FIFO + fair semaphore; Substream codec (C04) reduced to frame sizes.",
+            "tokio mpsc FIFO + fair semaphore; Substream codec (C04) reduced to frame sizes. The driver does not model which "
+            "wakers are registered: where a poll without a wake-up would not be a no-op (parked notification, substream "
+            "below the boundary again) it accepts both 'polled' and 'not polled'.",
     "technique": "Lean 4 proof (invariant over all schedules) + model/implementation correspondence check (checker mode)",
     "design_ref": "DESIGN.md §7 C12",
 }
-RULE = ("seeded histories of sync/async sends with sequence numbers, task polls, bounded and partial remote reads, remote "
-        "notifications incl. oversized ones, user polls, closes by either side and reopen cycles over random channel/pipe "
-        "capacities, run on the real Connection+Sink+Handle and on the Lean model (checker mode for the order in which the "
-        "two queues are drained); non-trivial = at least one notification delivered in each direction or a clogged result")
+RULE = ("seeded histories of sync/async sends with sequence numbers (sizes 3..max+5 incl. 127/128/129 and 16383/16384/16385), "
+        "task polls, bounded and partial remote reads, remote notifications incl. oversized ones, user polls, closes by either "
+        "side and reopen cycles over random channel/pipe capacities; every fourth history fills the outbound substream beyond "
+        "its back-pressure boundary with the reader stalled, queues BOTH modes at once, then drains (`drain` = run/rread in "
+        "turns until nothing moves) with the stream open; run on the real Connection+Sink+Handle and on the Lean model "
+        "(checker mode for the select! choices); oracle: per mode no duplicate, delivered is a prefix of accepted (a skipped "
+        "one before a delivered one = no_gap_within_open_period), nothing above the maximum, and at quiescence of a stream "
+        "that was open all the time delivered = accepted (else loss); non-trivial = at least one notification delivered in "
+        "each direction or a clogged result")
 TRUSTED_BASE = ["Lean 4.33 kernel", "axioms: propext, Classical.choice, Quot.sound only",
-                "hand-written model Model/Notif/Channel.lean tied to connection.rs/handle.rs by this correspondence run",
+                "hand-written model Model/Notif/Channel.lean tied to connection.rs/handle.rs/substream sink by this correspondence run",
                 "adapter /repo/src/verif/c12.rs + verif/io.rs, harness, verif.py, checks/c12.py",
                 "tokio mpsc: FIFO, try_send/send semantics, fair semaphore for waiting senders",
-                "unsigned-varint framing reduced to frame lengths (C04 covers the codec)"]
+                "unsigned-varint framing reduced to frame lengths (C04 covers the codec)",
+                "waker registration is not modelled (driver accepts polled/not polled where it matters)"]
 ASSUMPTIONS = ["sequence numbers of accepted notifications are distinct per mode (the generator numbers them)",
-               "channels are FIFO"]
+               "channels are FIFO",
+               "quiescence rule: applies only to a stream opened by `open` with no close/rclose/oversized frame or notification "
+               "and no task end since; a sync `ok` counts as accepted only while the handle holds a sink for the peer"]
 KEEP_PREFIX = 1
+
+
+EDGES = (127, 128, 129, 16383, 16384, 16385)      # where the unsigned-varint length prefix grows
 
 
 def gen_case(rng, tier):
@@ -44,7 +67,9 @@ def gen_case(rng, tier):
     asyn = rng.choice([1, 1, 2, 3])
     notif = rng.choice([1, 2, 3])
     cap = rng.choice([4, 7, 16, 33, 64, 1000])
-    mx = rng.choice([8, 16, 64, 200, 130, 130])
+    mx = rng.choice([8, 16, 64, 200, 130, 130, 16384, 17000])
+    if mx > 1000:
+        cap = rng.choice([33, 1000, 5000, 20000, 70000])
     ops = [f"cfg sync={sync} async={asyn} notif={notif} cap={cap} max={mx}"]
     if rng.random() < 0.95:
         ops += ["open", "events"]
@@ -53,9 +78,9 @@ def gen_case(rng, tier):
 
     def size():
         r = rng.random()
-        edge = [e for e in (127, 128, 129, 16383, 16384, 16385) if e <= mx + 1]
+        edge = [e for e in EDGES if e <= mx + 1]
         if edge and r < 0.12:
-            return rng.choice(edge)                 # where the varint length prefix grows
+            return rng.choice(edge)
         if r < 0.6:
             return rng.choice([3, 4, 5, 8])
         if r < 0.9:
@@ -85,31 +110,104 @@ def gen_case(rng, tier):
         elif r < 0.92:
             ops.append("events")
         elif r < 0.95:
-            ops.append(rng.choice(["close", "rclose"]))
+            ops.append(rng.choice(["close", "rclose", "drain"]))
         else:
-            ops += ["run", "events", "open", "events"]
-    ops += ["run", "rread", "run", "rread", "events", "run", "events"]
+            # sometimes the handle learns of the end / of the new stream only later
+            ops += rng.choice([["run", "events", "open", "events"]] * 8 + [["run", "open", "events"], ["run", "events", "open"]])
+    if rng.random() < 0.7 and cap * 300 > 80 * mx:
+        ops += ["drain", "events"]              # everything is read with the stream still open (unless it was closed)
+    else:
+        ops += ["run", "rread", "run", "rread", "events", "run", "events"]      # may stop before everything is read
+    return ops
+
+
+def gen_backpressure(rng, tier):
+    """Both sending modes queued at once while the outbound substream is in back-pressure (>= 64 KiB pending, the
+    reader stalled, the pipe full), then everything is drained with the stream still open."""
+    sync = rng.choice([2, 3, 5])
+    asyn = rng.choice([1, 2, 3])
+    notif = rng.choice([1, 2, 3])
+    cap = rng.choice([33, 4096, 9000, 20000, 20000, 40000, 70000, 200000])
+    mx = rng.choice([16384, 16385, 17000, 17000, 20000, 70000])
+    ops = [f"cfg sync={sync} async={asyn} notif={notif} cap={cap} max={mx}", "open", "events"]
+    seq = {"s": 0, "a": 0, "r": 0}
+
+    def size():
+        r = rng.random()
+        if r < 0.25:
+            return rng.choice([e for e in EDGES[3:] if e <= mx + 1])
+        if r < 0.85:
+            return rng.randrange(6000, min(mx, 30000) + 1)
+        if r < 0.97:
+            return rng.choice([3, 5, 100, 130, 1000])
+        return mx + rng.choice([1, 5])
+
+    def burst(ns, na):
+        b = ["s"] * ns + ["a"] * na
+        rng.shuffle(b)
+        for m in b:
+            seq[m] += 1
+            ops.append(f"{'sync' if m == 's' else 'async'} {seq[m]} {size()}")
+
+    def phase():
+        # fill the substream beyond the boundary with the reader stalled
+        for _ in range(rng.randrange(1, 5)):
+            burst(rng.randrange(0, sync + 2), rng.randrange(0, asyn + 3))
+            if rng.random() < 0.85:
+                ops.append("run")
+            if rng.random() < 0.15:
+                ops.append(f"rread {rng.choice([1, 1000, 5000, 20000])}")
+        # both modes queued at the same poll, repeatedly, the pipe still full
+        for _ in range(rng.randrange(1, 4)):
+            burst(rng.randrange(1, sync + 1), rng.randrange(1, asyn + 2))
+            ops.append("run")
+            if rng.random() < 0.3:
+                ops.append(rng.choice(["rread 1", "rread 3000", "rread 17000", "rread", "events"]))
+            if rng.random() < 0.15:
+                seq["r"] += 1
+                ops.append(f"rsend {seq['r']} {rng.choice([3, 100, 16384, 16385])}")
+
+    phase()
+    r = rng.random()
+    if r < 0.8 and cap >= 4096:
+        ops += ["drain", "events"]
+        if rng.random() < 0.4:
+            if rng.random() < 0.4:
+                ops += [rng.choice(["close", "rclose"]), "run", "events", "open", "events"]
+            phase()
+            ops += ["drain", "events"]
+    elif r < 0.9:
+        ops += ["run", "rread", "run", "rread", "events"]           # stops before the drain
+    else:
+        ops += [rng.choice(["close", "rclose"]), "drain", "events"]
     return ops
 
 
 def gen_cases(rng, tier):
-    n = {"quick": 800, "thorough": 30000, "search": 4000}[tier]
-    for _ in range(n):
-        yield gen_case(rng, tier)
+    n = {"quick": 800, "thorough": 60000, "search": 4000}[tier]
+    for i in range(n):
+        yield gen_backpressure(rng, tier) if i % 4 == 3 else gen_case(rng, tier)
 
 
 def corpus():
+    big = ["cfg sync=3 async=2 notif=2 cap=9000 max=17000", "open", "events"]
+    big += [f"sync {i} 16384" for i in (1, 2, 3)] + [f"async {i} 16385" for i in (1, 2, 3)] + ["run"]
+    big += ["sync 4 16383", "async 4 9000", "run", "sync 5 7000", "async 5 16384", "async 6 100", "run", "rread 3000", "run",
+            "sync 6 5", "async 7 5", "run", "drain", "events", "sync 7 5", "async 8 5", "drain"]
     return [["cfg sync=2 async=1 notif=2 cap=16 max=32", "open", "events", "sync 1 5", "sync 2 5", "sync 3 5", "async 1 5",
              "async 2 5", "run", "rread", "run", "rread", "rread", "rsend 1 4", "rsend 2 4", "rsend 3 4", "rsend 4 40", "run",
              "events", "run", "events", "sync 4 5", "open", "events", "sync 5 5", "run", "rread", "close", "run", "events",
-             "sync 6 5"]]
+             "sync 6 5"], big,
+            ["cfg sync=1 async=1 notif=1 cap=70000 max=16384", "open", "events", "rsend 1 16385", "run", "open", "sync 3 127",
+             "async 1 5", "events", "sync 4 127", "async 2 5", "drain"]]
 
 
 def model_lines(case, impl):
-    """Checker mode: the remote's reads carry the implementation's observation."""
+    """Checker mode: every op carries the implementation's observation (the model follows all choices of the
+    task's `select!` that are consistent with the observations)."""
     res = []
     for i, op in enumerate(case):
-        if op.startswith("rread") and impl is not None and i < len(impl) and impl[i].startswith("["):
+        if not op.startswith("cfg") and impl is not None and i < len(impl) and " -> " not in op and impl[i] not in ("", "skipped"):
             res.append(f"{op} -> {impl[i]}")
         else:
             res.append(op)
@@ -126,19 +224,32 @@ def mutate_case(rng, case, n):
             if rng.random() < 0.5:
                 del c[i]
             else:
-                c.insert(i, rng.choice(["run", "rread", "events", "rread 3"]))
+                c.insert(i, rng.choice(["run", "rread", "events", "rread 3", "drain"]))
         yield c
 
 
+def is_subsequence(a, b):
+    it = iter(b)
+    return all(x in it for x in a)
+
+
 def oracle(case, out):
+    """The property on the implementation's observations. Per open period (= one stream): `acc` the notifications
+    accepted per mode (a sync send answered `ok` while the handle knows the peer, an async send that completed),
+    `got` the frames the remote has read. Always: no frame read twice, `got` is a prefix of `acc` (a skipped
+    notification followed by a later one is a gap), nothing above the maximum. At quiescence (`drain ... quiet`)
+    with the stream open during the whole period: `got` EQUALS `acc` (a missing tail is a loss). A closed or
+    closing stream only owes a prefix."""
     bad = []
     mx = 0
     sizes = {}
     acc = {"s": [], "a": []}          # accepted in this open period, in order
     got = {"s": [], "a": []}          # read by the remote in this open period
     rsent, rgot = [], []              # remote -> user
-    waiting = set()
     old_sent = []
+    view = False                      # the handle has seen `opened` (and no `closed` since): it holds a sink
+    stream = False                    # a stream was opened by `open` ...
+    broken = True                     # ... and since then it was closed / asked to close / its task ended
 
     def v(kind, msg, i):
         bad.append({"kind": kind, "msg": msg, "step": i, "op": case[i], "out": out[i] if i < len(out) else None})
@@ -146,7 +257,37 @@ def oracle(case, out):
     def check_prefix(i):
         for m in ("s", "a"):
             if got[m] != acc[m][:len(got[m])]:
-                v("order", f"mode {m}: remote read {got[m]} but accepted were {acc[m]}", i)
+                if len(set(got[m])) == len(got[m]) and is_subsequence(got[m], acc[m]):
+                    missing = [x for x in acc[m][:acc[m].index(got[m][-1])] if x not in got[m]]
+                    v("no_gap_within_open_period", f"mode {m}: remote read {got[m]} but accepted were {acc[m]}: "
+                      f"{missing} skipped although a later one was delivered", i)
+                else:
+                    v("order", f"mode {m}: remote read {got[m]} but accepted were {acc[m]}", i)
+
+    def on_run(o, i):
+        nonlocal broken
+        m = re.search(r"sent=\[(.*?)\]", o)
+        if m:
+            for tok in m.group(1).split():
+                s, r = tok[1:].split(":")
+                if r == "ok":
+                    acc["a"].append(int(s))
+        if "ended" in o.split():
+            broken = True
+
+    def on_read(o, i):
+        for tok in o.strip("[]").split():
+            m, s = tok[0], tok[1:]
+            if m not in got or not s.isdigit():
+                v("garbage", f"remote read an unknown frame {tok}", i)
+                continue
+            s = int(s)
+            if s in got[m]:
+                v("duplicate", f"{tok} delivered twice", i)
+            got[m].append(s)
+            if max(sizes.get((m, s), 0), 3) > mx:
+                v("oversize", f"{tok} of size {sizes.get((m, s))} delivered, maximum is {mx}", i)
+        check_prefix(i)
 
     for i, (op, o) in enumerate(zip(case, out)):
         t = op.split()
@@ -158,50 +299,63 @@ def oracle(case, out):
                 break
             continue
         if t[0] == "cfg":
-            mx = int(re.search(r"max=(\d+)", op).group(1))
+            m = re.search(r"max=(\d+)", op)
+            mx = int(m.group(1)) if m else 256
+            acc, got = {"s": [], "a": []}, {"s": [], "a": []}      # a fresh component
+            rsent, rgot, old_sent = [], [], []
+            view, stream, broken = False, False, True
         elif t[0] == "open":
             acc = {"s": [], "a": []}
             got = {"s": [], "a": []}
             old_sent = old_sent + [x for x, _ in rsent]      # leftovers of the closed stream may still sit in the shared channel
             rsent, rgot = [], []
-            waiting = set()
+            stream, broken = True, False
         elif t[0] == "sync":
             w = o.split()[0]
             if w not in ("ok", "clogged", "noconn"):
                 v("sync-result", f"send_sync answered {o}", i)
-            if w == "ok":
+            # `ok` without a sink in the handle (stream not yet / no longer reported) means "dropped", not "accepted"
+            if w == "ok" and view and len(t) == 3:
                 acc["s"].append(int(t[1]))
                 sizes[("s", int(t[1]))] = int(t[2])
-        elif t[0] == "async":
+                if max(int(t[2]), 3) > mx:
+                    broken = True               # the task closes the stream when it meets this notification
+        elif t[0] == "async" and len(t) == 3:
             sizes[("a", int(t[1]))] = int(t[2])
             if o == "ok":
                 acc["a"].append(int(t[1]))
-            elif o == "waiting":
-                waiting.add(int(t[1]))
+            if max(int(t[2]), 3) > mx:
+                broken = True                   # (if it is ever accepted) the task closes the stream when it meets it
         elif t[0] == "run":
-            m = re.search(r"sent=\[(.*?)\]", o)
-            if m:
-                for tok in m.group(1).split():
-                    s, r = tok[1:].split(":")
-                    if r == "ok":
-                        acc["a"].append(int(s))
+            on_run(o, i)
         elif t[0] == "rread":
-            for tok in o.strip("[]").split():
-                m, s = tok[0], int(tok[1:])
-                if m not in got:
-                    v("garbage", f"remote read an unknown frame {tok}", i)
-                    continue
-                if s in got[m]:
-                    v("duplicate", f"{tok} delivered twice", i)
-                got[m].append(s)
-                if max(sizes.get((m, s), 0), 3) > mx:
-                    v("oversize", f"{tok} of size {sizes.get((m, s))} delivered, maximum is {mx}", i)
-            check_prefix(i)
+            on_read(o, i)
+        elif t[0] == "drain":
+            parts = [p.strip() for p in o.split("|")]
+            quiet = parts[-1] == "quiet"
+            for k, p in enumerate(parts[:-1] if quiet else parts):
+                if k % 2 == 0:
+                    on_run(p, i)
+                else:
+                    on_read(p, i)
+            if quiet and stream and not broken:
+                for m in ("s", "a"):
+                    if got[m] != acc[m] and got[m] == acc[m][:len(got[m])]:
+                        v("loss", f"mode {m}: the stream is open and the remote has read everything, but {acc[m][len(got[m]):]} "
+                          f"of the accepted {acc[m]} never arrived", i)
+        elif t[0] in ("close", "rclose"):
+            broken = True
         elif t[0] == "rsend":
             rsent.append((int(t[1]), int(t[2])))
+            if max(int(t[2]), 3) > mx:
+                broken = True                   # the task closes the stream when it meets this frame
         elif t[0] == "events":
             for tok in o.strip("[]").split():
-                if tok.startswith("r"):
+                if tok == "opened":
+                    view = True
+                elif tok == "closed":
+                    view = False
+                elif tok.startswith("r") and tok[1:].isdigit():
                     s = int(tok[1:])
                     if s in old_sent:
                         old_sent = old_sent[old_sent.index(s) + 1:]      # in order, at most once
@@ -228,13 +382,19 @@ def stats(case, out, acc):
             bump(acc, "task-ended")
         if t == "rread":
             bump(acc, "frames-read", len(o.strip("[]").split()))
+        if t == "drain" and o != "ignored":
+            bump(acc, "frames-read", len(re.findall(r"\b[sa]\d+\b", o)))
+            bump(acc, "drain:quiet" if o.endswith("quiet") else "drain:not-quiet")
+            bump(acc, "drain-rounds", o.count("|") // 2)
+        if t == "run" and "sent=" in o:
+            bump(acc, "async-completed-later", len(re.findall(r":ok", o)))
         if t == "events":
             bump(acc, "user-notifs", len([x for x in o.strip("[]").split() if x.startswith("r")]))
     bump(acc, case[0].split()[1] + " " + case[0].split()[2])
 
 
 def nontrivial(case, out):
-    return any(o.startswith("[s") or o.startswith("[a") for o in out) or any(o.startswith("clogged") for o in out)
+    return any(re.search(r"\[[sa]\d", o) for o in out) or any(o.startswith("clogged") for o in out)
 
 
 def matches_known(k, v):
